@@ -24,3 +24,69 @@ func VerifH_C01_MRed() {
 	}
 	vCover("MRed-reached")
 }
+
+func VerifH_C01_BRed() {
+	vConfig("backend", "int")
+	for _, q := range VerifSetup_Moduli(vTier()) {
+		c := VerifSetup_Consts(q)
+		bc := [2]uint64{c[0], c[1]}
+		x, y := vU64("x"), vU64("y")
+		vAssume(y < q)
+		r := BRed(x, y, q, bc)
+		vAssert(r < q, "BRed-range")
+		vAssert(vCong(vB(r), new(big.Int).Mul(vB(x), vB(y)), q), "BRed-congruence")
+		rl := BRedLazy(x, y, q, bc)
+		vAssert(rl < 2*q, "BRedLazy-range")
+		vAssert(vCong(vB(rl), new(big.Int).Mul(vB(x), vB(y)), q), "BRedLazy-congruence")
+	}
+}
+
+func VerifH_C01_BRedAdd() {
+	vConfig("backend", "int")
+	for _, q := range VerifSetup_Moduli(vTier()) {
+		c := VerifSetup_Consts(q)
+		bc := [2]uint64{c[0], c[1]}
+		a := vU64("a")
+		r := BRedAdd(a, q, bc)
+		vAssert(r < q, "BRedAdd-range")
+		vAssert(vCong(vB(r), vB(a), q), "BRedAdd-congruence")
+		rl := BRedAddLazy(a, q, bc)
+		vAssert(rl < 2*q, "BRedAddLazy-range")
+		vAssert(vCong(vB(rl), vB(a), q), "BRedAddLazy-congruence")
+	}
+}
+
+func VerifH_C01_MForm() {
+	vConfig("backend", "int")
+	for _, q := range VerifSetup_Moduli(vTier()) {
+		c := VerifSetup_Consts(q)
+		bc := [2]uint64{c[0], c[1]}
+		a := vU64("a")
+		_ = a
+		r := MForm(a, q, bc)
+		vAssert(r < q, "MForm-range")
+		vAssert(vCong(vB(r), vShl64(a), q), "MForm-congruence")
+		rl := MFormLazy(a, q, bc)
+		vAssert(rl < 2*q, "MFormLazy-range")
+		vAssert(vCong(vB(rl), vShl64(a), q), "MFormLazy-congruence")
+		// inverse direction
+		b := vU64("b")
+		ri := IMForm(b, q, c[2])
+		vAssert(ri < q, "IMForm-range")
+		vAssert(vCong(vShl64(ri), vB(b), q), "IMForm-congruence")
+		ril := IMFormLazy(b, q, c[2])
+		vAssert(ril < 2*q && ril > 0, "IMFormLazy-range")
+		vAssert(vCong(vShl64(ril), vB(b), q), "IMFormLazy-congruence")
+	}
+}
+
+func VerifH_C01_CRed() {
+	// modulus symbolic: CRed is linear in q
+	q := vU64("q")
+	a := vU64("a")
+	vAssume(q > 0 && q < 1<<63)
+	vAssume(a < 2*q)
+	r := CRed(a, q)
+	vAssert(r < q, "CRed-range")
+	vAssert(r == a || r == a-q, "CRed-value")
+}
